@@ -381,3 +381,28 @@ Theorem scan_order_reachable cfg calls now t :
     Ok (rev (filter (fun r => negb (expired now r)) (filter (fun r => ctype_eqb (r_type r) t) (a_rules a))) ++
         rev (filter (fun r => negb (expired now r)) (filter (fun r => ctype_eqb (r_type r) TDefault) (a_rules a)))).
 Proof. intros a. apply (get_valid_context_rules_wf a now t). apply reachable_wf. Qed.
+
+(* Only valid_until lapses: ledgers passing never take a rule's authority away before its own
+   expiry.  A rule that decides a context keeps deciding it at every later ledger at which it is
+   itself unexpired (the rules tried before it can only drop out), and advancing the ledger is
+   not a change of the table. *)
+Theorem decides_persists O a now now' supplied c r :
+  decides O a now supplied c r -> now <= now' -> not_expired now' r -> decides O a now' supplied c r.
+Proof.
+  intros [H1 [H2 [_ [H4 H5]]]] Hle He. repeat (split; [assumption|]).
+  intros r' Hr' Ha' He' Hb. apply (H5 r' Hr' Ha'); [|exact Hb].
+  unfold not_expired in *. destruct (r_valid r'); [lia|exact I].
+Qed.
+
+Theorem advance_keeps_table c st n : s_acct (fst (step c st (Advance n))) = s_acct st.
+Proof. cbn [step]. destruct ((0 <=? n) && in_u32 (s_now st + n)); reflexivity. Qed.
+
+Theorem only_valid_until_lapses c st n O supplied cx r :
+  decides O (s_acct st) (s_now st) supplied cx r ->
+  0 <= n -> match r_valid r with Some u => s_now st + n <= u | None => True end ->
+  let st' := fst (step c st (Advance n)) in
+  decides O (s_acct st') (s_now st + n) supplied cx r.
+Proof.
+  intros H Hn He st'. unfold st'. rewrite advance_keeps_table.
+  apply (decides_persists O (s_acct st) (s_now st) (s_now st + n) supplied cx r H); [lia|exact He].
+Qed.
